@@ -91,14 +91,17 @@ let dispatch (t : string list) : string option =
       (match unquoted menv t v with
        | None -> Some "NONE"
        | Some name ->
-           let bt = n_of_int 96 and dq = n_of_int 34 in
+           let mk l r = { q_left = n_of_int l; q_right = n_of_int r } in
+           let bt = mk 96 96 and dq = mk 34 34 and br = mk 91 93 in
            let dbg = match t, v with
              | DEnumDef (_, _, fs), VVariant (i, _) -> sopt (enum_def_variant_ident fs i)
              | _ -> "~" in
            Some (String.concat " "
              [ hex_of_str name;
                sopt (derived_prepare menv bt t v); sopt (derived_prepare menv dq t v);
-               hex_of_str (iden_prepare bt name); hex_of_str (iden_prepare dq name);
+               sopt (derived_prepare menv br t v);
+               hex_of_str (general_prepare bt name); hex_of_str (general_prepare dq name);
+               hex_of_str (general_prepare br name);
                (if ti.static then sopt (as_str menv t v) else "~");
                dbg; hex_of_str (unraw (ty_ident t));   (* std::any::type_name shows no r# *)
                (if has_fast_prepare t then "fast" else "general") ]))
